@@ -185,3 +185,119 @@ theorem UdpHeader.enc_user_data_verbatim (p : UdpHeader) :
   simp only [List.length_append, natToBits_length, List.length_cons, List.length_nil]
 
 end Dmr
+
+/-! ## check fields are carried verbatim (round 3)
+
+A decoder must return the received check field as it is — for every opcode, feature set id and data packet
+format, and whatever relation the received value has to the right CRC (octets exchanged, bits reversed,
+complemented, another data type's mask …): the only value that is replaced is the constructor's all-zero
+"compute it" sentinel. -/
+
+namespace Dmr
+open Dmr.Gen
+
+namespace Csbk
+
+/-- what the constructor leaves in the CRC field: the given value, unless it is the 0 sentinel -/
+theorem init_crc (f : Bits → Nat) (p : Csbk) (hz : p.crc ≠ 0) : (init f p).crc = p.crc := by
+  unfold init; rw [if_neg hz]
+
+/-- the CRC field is the received field, verbatim, for every opcode and feature set id (0 = "compute it") -/
+theorem dec_crc_verbatim (f : Bits → Nat) (bs : Bits) (p : Csbk) (h : dec f bs = .ok p)
+    (hz : getField bs 80 16 ≠ 0) : p.crc = getField bs 80 16 := by
+  unfold dec at h
+  repeat' split at h
+  all_goals first
+    | (cases h; done)
+    | (cases h; exact init_crc f _ hz)
+
+/-- … and the sentinel is replaced by the CRC function of the first 80 bits of the serialisation -/
+theorem dec_crc_zero (f : Bits → Nat) (bs : Bits) (p : Csbk) (h : dec f bs = .ok p)
+    (hz : getField bs 80 16 = 0) : p.crc = f (slice (enc { p with crc := 0 }) 0 80) := by
+  unfold dec at h
+  repeat' split at h
+  all_goals first
+    | (cases h; done)
+    | (cases h; simp only [init, hz, if_true])
+
+theorem enc_crc_verbatim (p : Csbk) (h : p.WF) : slice (enc p) 80 16 = natToBits 16 p.crc := by
+  unfold enc
+  rw [slice_append_right _ _ _ _ (by rw [body_length p h]; exact Nat.le_refl _), body_length p h]
+  exact slice_exact _ _ (natToBits_length _ _)
+
+end Csbk
+
+namespace DataHeader
+
+theorem dec_crc_verbatim (f : Bits → Nat) (bs : Bits) (p : DataHeader) (h : dec f bs = .ok p)
+    (hz : allZero (slice bs 80 16) = false) : p.crc = slice bs 80 16 := by
+  unfold dec at h
+  split at h
+  · cases h
+  · rename_i hl
+    have hlen : (slice bs 80 16).length = 16 := by rw [slice_length]; omega
+    have hi : ∀ pl, (init f ⟨slice bs 80 16, pl⟩).crc = slice bs 80 16 := by
+      intro pl
+      unfold init
+      rw [if_neg (by simp [hlen, hz])]
+    repeat' split at h
+    all_goals first
+      | (cases h; done)
+      | (cases h; exact hi _)
+
+theorem enc_crc_verbatim (p : DataHeader) (h : p.WF) : slice (enc p) 80 16 = p.crc := by
+  unfold enc
+  rw [slice_append_right _ _ _ _ (by rw [body_length _ h.2]; exact Nat.le_refl _), body_length _ h.2]
+  exact slice_exact _ _ h.1
+
+end DataHeader
+
+namespace ShortLc
+
+theorem dec_crc_verbatim (g : Bits → Bits) (bs : Bits) (p : ShortLc) (h : dec g bs = .ok p)
+    (hz : allZero (slice bs 28 8) = false) : p.crc = slice bs 28 8 := by
+  have hi : ∀ pl, (init g ⟨slice bs 28 8, pl⟩).crc = slice bs 28 8 := by
+    intro pl
+    unfold init
+    rw [if_neg (by simp [hz])]
+  unfold dec at h
+  repeat' split at h
+  all_goals first
+    | (cases h; done)
+    | (cases h; exact hi _)
+
+theorem enc_crc_verbatim (p : ShortLc) (h : p.WF) : slice (enc p) 28 8 = p.crc := by
+  unfold enc
+  rw [slice_append_right _ _ _ _ (by rw [body_length _ h.2]; exact Nat.le_refl _), body_length _ h.2]
+  exact slice_exact _ _ h.1
+
+end ShortLc
+
+
+namespace RateData
+
+theorem init_checks (c : RateCfg) (f9 : Bytes → Nat → Nat → Nat) (t : RateType) (a p : RateData)
+    (h : init c f9 t a = .ok p) :
+    p.dbsn = a.dbsn ∧ p.crc32 = a.crc32 ∧ (a.crc9 ≠ 0 → p.crc9 = a.crc9)
+      ∧ (a.crc9 = 0 → p.crc9 = f9 a.data a.dbsn a.crc32) := by
+  unfold init at h
+  repeat' split at h
+  all_goals first
+    | (cases h; done)
+    | (cases h; refine ⟨rfl, rfl, fun hz => ?_, fun hz => ?_⟩ <;> simp_all)
+
+/-- serial number, CRC-9 (sent least significant bit first; 0 = "compute it") and CRC-32 of a received block are the
+received bits at the position the block type fixes -/
+theorem dec_checks_verbatim (c : RateCfg) (f9 : Bytes → Nat → Nat → Nat) (t : RateType) (bs : Bits) (p : RateData)
+    (h : dec c f9 t bs = .ok p) :
+    (t = .confirmed ∨ t = .confirmedLast →
+        p.dbsn = getField bs 0 7 ∧ (bitsToNat (slice bs 7 9).reverse ≠ 0 → p.crc9 = bitsToNat (slice bs 7 9).reverse))
+    ∧ (t = .unconfirmedLast ∨ t = .confirmedLast → p.crc32 = getField bs (8 * c.total - 32) 32) := by
+  unfold dec at h
+  split at h
+  · cases h
+  · cases t <;> simp only [reduceCtorEq, or_self, or_false, false_or, false_implies, true_implies, and_true, true_and] <;>
+      (have := init_checks _ _ _ _ _ h; simp_all)
+
+end RateData
+end Dmr
